@@ -195,6 +195,8 @@ class Ext:
             self.use(ex, "==: uninterpreted py_eq on objects of unknown class")
             return VBool(sym.py_eq(ex.box(a), ex.box(b)))
         if isinstance(a, VRec) and isinstance(b, VRec):
+            if hasattr(a.model, "eq_"):          # a model of a class with a value __eq__ (datetime.time, ...)
+                return a.model.eq_(ex, a, b)
             return VBool(self.is_(ex, a, b))
         if (isinstance(a, VCls) and a.py is None and isinstance(b, VRec) and hasattr(b.model, "instancecheck")) or \
                 (isinstance(b, VCls) and b.py is None and isinstance(a, VRec) and hasattr(a.model, "instancecheck")):
